@@ -5,6 +5,7 @@ import (
 	"fmt"
 	"os"
 	"path/filepath"
+	"regexp"
 	"sort"
 	"strings"
 	"sync"
@@ -77,7 +78,15 @@ func initState(ld *Loaded) (*sym.State, []string, error) {
 	}
 	defer s.Close()
 	var notes []string
-	for _, p := range ld.Pkgs {
+	var order []*ssa.Package
+	for _, path := range []string{"io", "context"} {
+		if p := ld.Prog.ImportedPackage(path); p != nil {
+			order = append(order, p)
+		}
+	}
+	nExtra := len(order)
+	order = append(order, ld.Pkgs...)
+	for pi, p := range order {
 		initFn := p.Func("init")
 		if initFn == nil {
 			continue
@@ -95,6 +104,11 @@ func initState(ld *Loaded) (*sym.State, []string, error) {
 		ld.Eng.InitTarget = p.Pkg.Path()
 		r.Explore(st, initFn, nil)
 		if endSt == nil {
+			if pi < nExtra {
+				notes = append(notes, "init of "+p.Pkg.Path()+" skipped (did not complete)")
+				st.Frames = nil
+				continue
+			}
 			return nil, notes, fmt.Errorf("init of %s did not complete: %v", p.Pkg.Path(), notes)
 		}
 		st = endSt
@@ -235,11 +249,17 @@ func matchKnown(kf []KnownFinding, prop, harness string, v sym.Violation) *Known
 		if k.Harness != "" && !strings.HasPrefix(harness, k.Harness) {
 			continue
 		}
-		if k.Label != "" && k.Label != v.Label {
-			continue
+		if k.Label != "" {
+			re, err := regexp.Compile("^(" + k.Label + ")$")
+			if err != nil || !re.MatchString(v.Label) {
+				continue
+			}
 		}
-		if k.Pattern != "" && !strings.Contains(v.Pos+" "+v.Stack+" "+v.Msg, k.Pattern) {
-			continue
+		if k.Pattern != "" {
+			re, err := regexp.Compile(k.Pattern)
+			if err != nil || !re.MatchString(v.Pos+" | "+v.Stack+" | "+v.Msg+" | "+v.History) {
+				continue
+			}
 		}
 		return k
 	}
@@ -304,7 +324,7 @@ func RunProperty(opt Options) int {
 				rr := results[i]
 				fmt.Fprintf(os.Stderr, "job %s: paths=%d obl=%d dis=%d unk=%d viol=%d ends=%v q=%d lia=%d/%d(%.1fs) solver=%.1fs wall=%.1fs %s\n", j.Name(), rr.Paths, rr.Obligations, rr.Discharged, rr.Unknown, len(rr.Violations), rr.Ends, rr.Queries, rr.LIAUnsat, rr.LIAQueries, rr.LIATime.Seconds(), rr.SolverTime.Seconds(), rr.Wall.Seconds(), rr.Err)
 				for _, v := range rr.Violations {
-					fmt.Fprintf(os.Stderr, "   VIOL %s @%s %s\n", v.Label, v.Pos, v.Msg)
+					fmt.Fprintf(os.Stderr, "   VIOL %s @%s %s hist=[%s]\n", v.Label, v.Pos, v.Msg, v.History)
 				}
 				for k, n := range rr.EndMsgs {
 					fmt.Fprintf(os.Stderr, "   END x%d %s\n", n, k)
@@ -395,7 +415,7 @@ func RunProperty(opt Options) int {
 				nviol++
 				exit = 1
 				fmt.Printf("VIOLATION property=%s replay=%s\n", opt.Prop, rp)
-				fmt.Printf("  harness=%s label=%s pos=%s msg=%s\n", name, v.Label, v.Pos, v.Msg)
+				fmt.Printf("  harness=%s label=%s pos=%s msg=%s history=[%s]\n", name, v.Label, v.Pos, v.Msg, v.History)
 			} else {
 				inconclusive = append(inconclusive, fmt.Sprintf("%s: counterexample for %s at %s did not reproduce natively (%s)", name, v.Label, v.Pos, firstLine(out)))
 				fmt.Printf("INCONCLUSIVE property=%s harness=%s label=%s pos=%s: solver counterexample did not reproduce natively; replay kept at %s\n", opt.Prop, name, v.Label, v.Pos, rp)
